@@ -254,6 +254,17 @@ PROPS["C10"] = dict(
     jobs=[J("TestC10_StateMachine", 1500, 8000, shards=8)],
 )
 
+PROPS["C09"] = dict(
+    title="No exported function panics or corrupts memory on untrusted input",
+    rule=("a table of the exported surface (decoders, key generation, Sign/Verify, PoP, SPoCK, the four aggregations, one/many-message and batch verification, threshold key generation / stateless reconstruction / inspector and participant methods, DKG constructors and every DKGState method fed with arbitrary (origin, tag, payload) "
+          "sequences incl. real payloads mutated, enum and key String(), hashers and KMAC constructor, ChaCha20 PRG constructors and every Rand method, error predicates) with an argument generator per parameter kind: byte slices nil / empty / 1 short / exact / 1 long / 10 000 / valid / valid with one byte changed / all 0xff; "
+          "integers -1, 0, 1, boundary +-1, 254..257, 2^16, +-2^31, +-2^63; enum values -2..10; lists empty / nil / mismatched. Every call is journalled before it runs (a worker killed by a C abort or SIGSEGV leaves the journal as replay) and runs under the property's recover wrapper: a Go panic, a dead worker, or a signature returned by ThresholdSignature() that fails verification is a violation. "
+          "Non-trivial = the input is invalid in at least one way and the call returned; distinct by draw-record hash."),
+    assumptions=["documented exceptions are excluded by construction: UintN(0), nil interface / callback arguments, permutation and KMAC sizes above 2^20, PRG positions beyond the documented 256 GiB stream, hashers whose ComputeHash returns fewer bytes than Size() claims, the no_cgo build",
+                 "Go's -asan does not see over-reads that stay inside a slice's capacity; memory safety of the C layer on arbitrary bytes is the subject of the libFuzzer targets in cfuzz/ (when built) and of the semantic oracles of C05/C06"],
+    jobs=[J("TestC09_Calls", 3000, 20000, shards=16, journal=True), J("TestC09_Regressions", 1, 1, journal=True)],
+)
+
 
 import c15_overlay
 import c20_build
